@@ -48,10 +48,11 @@ def wf_attr(a):
         if any(not (0 <= x < 256) for x in p): return 'byte outside u8'
         n = len(p)
         if n > 65535: return 'value of %d bytes is longer than an attribute can carry' % n
-        if code == AS_PATH and not wf_as_path(p): return 'AS_PATH segments malformed'
+        if code == AS_PATH and not wf_as_path(p, False): return 'AS_PATH segments malformed'
         if code == NEXTHOP and n not in (4, 16): return 'NEXT_HOP length %d' % n
         if code == ATOMIC and n != 0: return 'ATOMIC_AGGREGATE with a value'
         if code == AGGREGATOR and n != 8: return 'AGGREGATOR length %d' % n
+        if code in (COMMUNITY, CLUSTER_LIST, EXT_COMMUNITY, LARGE_COMMUNITY) and n == 0: return 'empty list (RFC 7606: zero length is malformed)'
         if code in (COMMUNITY, CLUSTER_LIST) and n % 4: return 'length %d not a multiple of 4' % n
         if code == EXT_COMMUNITY and n % 8: return 'length %d not a multiple of 8' % n
         if code == LARGE_COMMUNITY and n % 12: return 'length %d not a multiple of 12' % n
@@ -92,6 +93,108 @@ def rd_bytes(rd):
     t, a, b = rd
     if t == 0: return [0, 0] + be16(a) + be32(b)
     return [0, t] + be32(a) + be16(b)
+
+# ---- EVPN (kinds 6, 7)
+def wf_evpn(e):
+    """e as printed by the harness: what packet/src/evpn.rs decodes (24-bit labels, prefix length within
+    the prefix's address width, gateway of the prefix's family)"""
+    t = e[0]
+    labels = [e[4]] if t == 1 else [e[6]] + e[7] if t == 2 else [e[7]] if t == 5 else []
+    for l in labels:
+        if l >= 2 ** 24: return 'EVPN label %d outside 24 bits' % l
+    if t == 5:
+        w = 32 if e[4][0] == 4 else 128
+        if e[5] > w: return 'IP-prefix route: prefix length %d > %d' % (e[5], w)
+        if e[4][0] != e[6][0]: return 'IP-prefix route: gateway of the other address family'
+    return None
+
+def ipx_to_val(i): return [4, i[1]] if i[0] == 4 else [6, v6bytes(i[1])]
+def ipx_to_coq(i): return '(IP4 %s)' % cN(i[1]) if i[0] == 4 else '(IP6 %s)' % cN(i[1])
+
+def evpn_to_valx(e, out=True):
+    rd = (lambda r: rd_bytes(r) if out else list(r))
+    t = e[0]
+    if t == 1: return [1, rd(e[1]), e[2], e[3], e[4]]
+    if t == 2: return [2, rd(e[1]), e[2], e[3], e[4], [ipx_to_val(e[5])] if e[5] else [], e[6], [e[7]] if e[7] is not None else []]
+    if t == 3: return [3, rd(e[1]), e[2], ipx_to_val(e[3])]
+    if t == 4: return [4, rd(e[1]), e[2], ipx_to_val(e[3])]
+    return [5, rd(e[1]), e[2], e[3], ipx_to_val(e[4]), e[5], ipx_to_val(e[6]), e[7]]
+
+def evpn_to_coq(e):
+    t = e[0]
+    if t == 1: return '(EvAd %s %s %s %s)' % (rd_to_coq(e[1]), cbytes(e[2]), cN(e[3]), cN(e[4]))
+    if t == 2: return '(EvMac %s %s %s %s %s %s %s)' % (rd_to_coq(e[1]), cbytes(e[2]), cN(e[3]), cbytes(e[4]),
+                                                       '(Some %s)' % ipx_to_coq(e[5]) if e[5] else 'None', cN(e[6]),
+                                                       '(Some %s)' % cN(e[7]) if e[7] is not None else 'None')
+    if t == 3: return '(EvImet %s %s %s)' % (rd_to_coq(e[1]), cN(e[2]), ipx_to_coq(e[3]))
+    if t == 4: return '(EvEs %s %s %s)' % (rd_to_coq(e[1]), cbytes(e[2]), ipx_to_coq(e[3]))
+    return '(EvPfx %s %s %s %s %s %s %s)' % (rd_to_coq(e[1]), cbytes(e[2]), cN(e[3]), ipx_to_coq(e[4]), cN(e[5]), ipx_to_coq(e[6]), cN(e[7]))
+
+def api_esi_to_coq(e): return 'None' if not e else '(Some (%s, %s))' % (cN(e[0]), cbytes(e[1]))
+
+def api_evpn_to_coq(x):
+    t = x[0]
+    if t == 1: return '(AEvAd %s %s %s %s)' % (api_rd_to_coq(x[1]), api_esi_to_coq(x[2]), cN(x[3]), cN(x[4]))
+    if t == 2: return '(AEvMac %s %s %s %s %s %s)' % (api_rd_to_coq(x[1]), api_esi_to_coq(x[2]), cN(x[3]), cstr(x[4]), cstr(x[5]), clist([cN(l) for l in x[6]]))
+    if t == 3: return '(AEvImet %s %s %s)' % (api_rd_to_coq(x[1]), cN(x[2]), cstr(x[3]))
+    if t == 4: return '(AEvEs %s %s %s)' % (api_rd_to_coq(x[1]), api_esi_to_coq(x[2]), cstr(x[3]))
+    return '(AEvPfx %s %s %s %s %s %s %s)' % (api_rd_to_coq(x[1]), api_esi_to_coq(x[2]), cN(x[3]), cstr(x[4]), cN(x[5]), cstr(x[6]), cN(x[7]))
+
+GOOD_MAC = ['00:00:5e:00:01:01', 'ff:ff:ff:ff:ff:ff', '0:1:2:3:4:5', 'AA:bb:Cc:dd:EE:0f', '+a:00:00:00:00:01', '000a:0:0:0:0:0']
+BAD_MAC = ['', '00:00:5e:00:01', '00:00:5e:00:01:01:02', '00:00:5e:00:01:1g', '100:0:0:0:0:0', '00-00-5e-00-01-01', '0:1:2:3:4:', ':1:2:3:4:5',
+           '-1:0:0:0:0:0', '+:0:0:0:0:0', '0x1:0:0:0:0:0', ' 0:1:2:3:4:5', '0:1:2:3:4:5 ']
+
+def gen_api_esi(rng):
+    x = rng.random()
+    if x < 0.08: return []
+    n = 9 if rng.random() < 0.85 else rng.choice([0, 8, 10])
+    return [rng.choice([0, 0, 1, 3, 5, 255]) if rng.random() < 0.9 else rng.choice([256, 257, 2 ** 32 - 1]), [rng.choice([0, 0, 1, 255, rng.randrange(256)]) for _ in range(n)]]
+
+def evlabel(rng):
+    return rng.choice([0, 100, 5000, 2 ** 24 - 1]) if rng.random() < 0.85 else rng.choice([2 ** 24, 2 ** 24 + 100, 2 ** 32 - 1])
+
+def gen_api_evpn_case(rng):
+    t = rng.choice([1, 2, 2, 3, 4, 5, 5])
+    rd = gen_api_rd(rng) if rng.random() < 0.5 else [1, 65000, 1]
+    esi = gen_api_esi(rng) if rng.random() < 0.5 else [0, [0] * 9]
+    etag = rng.choice([0, 1, 100, 2 ** 32 - 1])
+    if t == 1: x = [1, rd, esi, etag, evlabel(rng)]
+    elif t == 2:
+        mac = S(rng.choice(GOOD_MAC)) if rng.random() < 0.75 else S(rng.choice(BAD_MAC))
+        ip = [] if rng.random() < 0.3 else ipstr(rng, 0.1)
+        labels = [evlabel(rng) for _ in range(rng.choice([1, 1, 2, 2, 0, 3]))]
+        x = [2, rd, esi, etag, mac, ip, labels]
+    elif t == 3: x = [3, rd, etag, ipstr(rng, 0.15)]
+    elif t == 4: x = [4, rd, esi, ipstr(rng, 0.15)]
+    else:
+        pfx = ipstr(rng, 0.1)
+        gw = rng.choice([[], [], ipstr(rng, 0.1), S('0.0.0.0'), S('::')])
+        x = [5, rd, esi, etag, pfx, rng.choice([0, 8, 24, 32, 33, 64, 128, 129, 255, 256, 300]), gw, evlabel(rng)]
+    return {'k': 6, 'api': x}
+
+def gen_ipx(rng, v6=None):
+    v6 = rng.random() < 0.4 if v6 is None else v6
+    return (6, v6_rand(rng)) if v6 else (4, u32(rng))
+
+def gen_evpn_case(rng):
+    t = rng.choice([1, 2, 2, 3, 4, 5, 5])
+    rt = rng.choice([0, 1, 2])
+    rd = [rt, rng.choice([0, 1, 65535]) if rt == 0 else u32(rng), u32(rng) if rt == 0 else rng.choice([0, 7, 65535])]
+    esi = rng.choice([[0] * 10, [rng.choice([0, 1, 5, 255])] + [rng.randrange(256) for _ in range(9)]])
+    etag = rng.choice([0, 1, 100, 2 ** 32 - 1])
+    lab = lambda: rng.choice([0, 100, 5000, 2 ** 24 - 1, rng.randrange(2 ** 24)])
+    if t == 1: e = [1, rd, esi, etag, lab()]
+    elif t == 2:
+        e = [2, rd, esi, etag, [rng.choice([0, 1, 0x5e, 255, rng.randrange(256)]) for _ in range(6)],
+             None if rng.random() < 0.3 else gen_ipx(rng), lab(), lab() if rng.random() < 0.4 else None]
+    elif t == 3: e = [3, rd, etag, gen_ipx(rng)]
+    elif t == 4: e = [4, rd, esi, gen_ipx(rng)]
+    else:
+        pfx = gen_ipx(rng)
+        w = 32 if pfx[0] == 4 else 128
+        gw = rng.choice([(pfx[0], 0), gen_ipx(rng, pfx[0] == 6)])
+        e = [5, rd, esi, etag, pfx, rng.choice([0, 8, 24, 32, w]), gw, lab()]
+    return {'k': 7, 'e': e}
 
 # ---- failing-input classes of the wide part (decidable on what the harness prints of the failing item)
 RTC_FAM, LS_FAM, EVPN_FAM = (1 << 16) | 132, (16388 << 16) | 71, (25 << 16) | 70
@@ -455,7 +558,7 @@ def gen_api_case(rng, variant=None):
 class Prop:
     pid = 'C17'
     props_file = 'Props/C17.v'
-    required_theorems = ['attr_roundtrip_up_to_flags', 'attr_roundtrip_core_outside_known', 'attr_roundtrip_core_refuted', 'from_api_total', 'from_api_preserves_wf', 'wire_values_are_wf', 'wf_is_safe_downstream', 'api_accepted_is_safe', 'nlri_roundtrip_core', 'net_from_api_preserves_wf', 'nlri_encode_safe', 'local_path_accepts_wf']
+    required_theorems = ['attr_roundtrip_up_to_flags', 'attr_roundtrip_core_outside_known', 'attr_roundtrip_core_refuted', 'from_api_total', 'from_api_preserves_wf', 'wire_values_are_wf', 'wf_is_safe_downstream', 'api_accepted_is_safe', 'nlri_roundtrip_core', 'net_from_api_preserves_wf', 'nlri_encode_safe', 'local_path_accepts_wf', 'evpn_roundtrip', 'evpn_from_api_preserves_wf', 'noncore_roundtrip_guarded', 'noncore_typed_from_api_wf']
     correspondence_name = ('Model/Api.v (wire_accept, to_api, from_api, net_from_api, nlri_to_api, local_path, as_path_length, encode_attr, rib_cmp, encode_nlri) vs '
                            'daemon/src/convert.rs attr_to_api / attr_from_api / nlri_to_api / net_from_api, event/grpc.rs GrpcService::local_path, '
                            'packet Attribute::{decode via PeerCodec::parse_message, as_path_length, encode_to_bytes}, Nlri::encode_to_bytes, '
@@ -463,11 +566,12 @@ class Prop:
     rule = ('case kinds: (0) one wire attribute (flags, code, value) decoded by PeerCodec::parse_message, then attr_to_api / attr_from_api; '
             '(1) one API attribute message through attr_from_api, then as_path_length / encode / attr_to_api / Table::insert next to a competitor path; '
             '(2) one API NLRI message through net_from_api, then Nlri::encode; (3) one internal IPv4/IPv6/labeled NLRI through nlri_to_api / net_from_api; '
-            '(5) a whole api::Path through GrpcService::local_path, then Table::insert; these five kinds are modelled and compared with the model value for value. '
+            '(5) a whole api::Path through GrpcService::local_path, then Table::insert; (6) one API EVPN message through net_from_api, checked to decode back from its own wire encoding; '
+            '(7) one internal EVPN route through nlri_to_api / net_from_api; these seven kinds are modelled and compared with the model value for value. '
             '(4) the wide part: a whole UPDATE of any of 19 address families with any attribute kinds (tunnel-encap, prefix-SID, BGP-LS, AIGP, AS4_*, unknown), '
             'every decoded attribute and NLRI round-tripped through the API form; NOT modelled, judged by the Spec oracle only (canon maps its observation to []), '
             'so it adds to "evaluations" and "traces_validated_against_impl" without being a model comparison: see input_distribution tags wide:*. '
-            'A case is non-trivial when the value is held / accepted (kinds 0,1,2,5), decodable (kind 3), or the UPDATE decodes to at least one attribute or NLRI (kind 4); '
+            'A case is non-trivial when the value is held / accepted (kinds 0,1,2,5,6), decodable (kinds 3,7), or the UPDATE decodes to at least one attribute or NLRI (kind 4); '
             'distinct = distinct case contents. Generators: per attribute type mostly-valid values plus boundary lengths (0, 255, 256 numbers; 4k+1 bytes), '
             'a grid Unknown{type 0..41 and beyond u8} x lengths 0..32, flags with PARTIAL / EXTENDED / reserved bits and wrong class bits, '
             'valid and malformed IPv4/IPv6 address strings (every listed spelling through NextHop and Prefix), out-of-range enums and u32 fields, '
@@ -481,8 +585,10 @@ class Prop:
         '(uint32 fields below 2^32: api_in_range) are modelled by hand from their documentation; bit tests on u8 values are written arithmetically in the model',
         'what is modelled of attr_to_api / attr_from_api is the core: ORIGIN, AS_PATH, NEXT_HOP, MED, LOCAL_PREF, ATOMIC_AGGREGATE, AGGREGATOR, COMMUNITIES, ORIGINATOR_ID, '
         'CLUSTER_LIST, EXTENDED_COMMUNITIES (all twelve variants of read_extcom/write_extcom), LARGE_COMMUNITIES, Unknown (incl. MP_REACH/MP_UNREACH/AS4_PATH/AS4_AGGREGATOR/AIGP '
-        'and opaque); NLRI: Prefix and LabeledPrefix arms. TUNNEL_ENCAP, PREFIX_SID, BGP-LS attribute, MpReach message, VPN / EVPN / flowspec / MUP / SR-policy / RTC / BGP-LS NLRI '
-        'are covered by the wide differential part only (sampling, no proof): the property is claimed partial for them',
+        'and opaque); NLRI: Prefix, LabeledPrefix, LabeledVPNIPPrefix arms and the five EVPN route types (RD, ESI, MAC and IP address text). '
+        'For TUNNEL_ENCAP, PREFIX_SID and the BGP-LS attribute only the lossless-or-raw wrapper of attr_to_api is modelled (theorems noncore_*): the typed TLV converters are uninterpreted '
+        'functions there, so the round trip is proved for whatever they compute but a panic inside them, and what the typed form looks like, is covered by the wide differential part only; '
+        'the MpReach message and the flowspec / MUP / SR-policy / RTC / BGP-LS NLRI families are covered by the wide differential part only (sampling, no proof): the property is claimed partial for them',
         'the wire decoder is modelled only as far as C17 needs it (Attribute::decode in four-octet-AS form and the per-attribute admission of the UPDATE arm); '
         'two-octet-AS sessions, treat-as-withdraw and NLRI decoding are exercised by the wide part only',
         'the comparator is modelled for one comparison between paths of two sources of equal role that are not stale (what Table::insert does against a destination holding one path); '
@@ -518,6 +624,8 @@ class Prop:
         if c['k'] == 3: return [3, nlri_to_valx(c['n'], out=False)]
         if c['k'] == 4: return [4, c['opts'], c['msg']]
         if c['k'] == 5: return [5, c['fam'], c['nlri'], c['attrs'], c['id']]
+        if c['k'] == 6: return [6, c['api']]
+        if c['k'] == 7: return [7, evpn_to_valx(c['e'], out=False)]
         raise ValueError(c)
 
     def case_to_coq(self, c):
@@ -526,6 +634,8 @@ class Prop:
         if c['k'] == 2: return 'run_api_nlri_case Debug %s' % api_nlri_to_coq(c['api'])
         if c['k'] == 3: return 'run_nlri_case %s' % nlri_to_coq(c['n'])
         if c['k'] == 4: return '(VL [])'     # the wide part has no model: judged by the oracle only
+        if c['k'] == 6: return 'run_api_evpn_case %s' % api_evpn_to_coq(c['api'])
+        if c['k'] == 7: return 'run_evpn_case %s' % evpn_to_coq(c['e'])
         if c['k'] == 5:
             return 'run_local_path_case %s %s %s %s' % ('None' if c['fam'] < 0 else '(Some %s)' % cN(c['fam']), api_nlri_to_coq(c['nlri']),
                                                       clist([api_to_coq(x) for x in c['attrs']]), cN(c['id']))
@@ -563,6 +673,11 @@ class Prop:
             cases.append({'k': 0, 'flags': T, 'code': NEXTHOP, 'data': v6bytes(v6_rand(rng))})
         for _ in range(nn):
             cases.append(gen_local_path_case(rng))
+        for _ in range(nn):
+            cases.append(gen_api_evpn_case(rng))
+            cases.append(gen_evpn_case(rng))
+        for m in GOOD_MAC + BAD_MAC:
+            cases.append({'k': 6, 'api': [2, [1, 65000, 1], [0, [0] * 9], 0, S(m), [], [100]]})
         # wide differential part: whole UPDATEs of every family / attribute kind (oracle only)
         for _ in range(1500 if tier == 'quick' else 30000):
             opts, msg, fam = c17wire.gen_update(rng)
@@ -660,6 +775,28 @@ class Prop:
             for cls, txt in fails:
                 return 'wide[%s]: %s' % (cls, txt)
             return None
+        if c['k'] == 6:
+            if obs[0] == 0:
+                return None
+            why = wf_evpn(obs[1])
+            if why:
+                return 'net_from_api accepted an EVPN route outside the wire invariants: ' + why
+            if obs[2] != 1:
+                return 'an accepted EVPN route does not decode back from its own wire encoding to the same route'
+            # stored faithfully: numeric fields of the message are the fields of the route
+            x, e = c['api'], obs[1]
+            if x[2] and e[0] in (1, 2, 4, 5) and e[2][0] != x[2][0]:
+                return 'ESI type %d of the message stored as %d' % (x[2][0], e[2][0])
+            if e[0] == 2 and len(x[6]) != 1 + len(e[7]):
+                return 'MAC/IP route: %d labels in the message, %d stored' % (len(x[6]), 1 + len(e[7]))
+            return None
+        if c['k'] == 7:
+            e = evpn_to_valx(c['e'])
+            if wf_evpn(e):
+                return None
+            if obs[1] != [1, e]:
+                return 'EVPN round trip: net_from_api(nlri_to_api(n)) %s' % ('rejected' if obs[1] == [0] else 'differs from n')
+            return None
         if c['k'] == 5:
             if obs[0] == 0:
                 return None
@@ -698,7 +835,9 @@ class Prop:
     def nontrivial_key(self, c, obs):
         if obs == [-1] or not obs:
             return None
-        if c['k'] in (0, 1, 2, 5) and obs[0] == 1:
+        if c['k'] in (0, 1, 2, 5, 6) and obs[0] == 1:
+            return json.dumps(self.case_to_val(c))
+        if c['k'] == 7 and not wf_evpn(evpn_to_valx(c['e'])):
             return json.dumps(self.case_to_val(c))
         if c['k'] == 3 and not wf_nlri(nlri_to_valx(c['n'])):
             return json.dumps(self.case_to_val(c))
@@ -719,6 +858,11 @@ class Prop:
             return ['api_nlri', 'api_nlri:%s:%s' % ({0: 'missing', 1: 'prefix', 2: 'labeled', 3: 'vpn'}.get(c['api'][0]), st)]
         if c['k'] == 3:
             return ['nlri', 'nlri:%d:%s' % (c['n'][0], 'wf' if not wf_nlri(nlri_to_valx(c['n'])) else 'not_decodable')]
+        if c['k'] == 6:
+            st = 'panic' if obs == [-1] else 'accepted' if obs[0] == 1 else 'rejected'
+            return ['api_evpn', 'api_evpn:type%d:%s' % (c['api'][0], st)]
+        if c['k'] == 7:
+            return ['evpn', 'evpn:type%d' % c['e'][0]]
         if c['k'] == 5:
             return ['local_path', 'local_path:%s:attrs_%d' % ('accepted' if obs and obs[0] == 1 else 'rejected', min(len(c['attrs']), 4))]
         if c['k'] == 4:
